@@ -8,24 +8,88 @@ from vlib import core, gen
 PROP = "C15"
 META = {
     "technique": "Coq proof: inductive invariants over all histories of the atomic pool operations (any number of callers, peer closes, late data, fallback, session loss/rebuild); tie: differential execution of the model against a real SessionManager/server pair on generated histories + independent oracle",
-    "level_text": "C15_ring (exclusive ownership, ring bound and wrap-around for every capacity incl. 0 and 1) and C15_table hold for every history; C15_clean_full and C15_no_leak_full are REFUTED on the faithful model (vm_compute witnesses, all three replayed on the real code); C15_partial_clean / C15_partial_no_leak hold under the spelled-out hypotheses (no unflushed bytes at PutBack, peer silent on pooled streams / close-what-is-discarded).",
+    "level_text": "For every capacity, any number of callers and every history: C15_ring (exclusive ownership, ring bound, wrap-around incl. capacity 0 and 1), C15_table, C15_clean_live (returned stream open, session live, not in fallback, sole holder), and - for the current tree, whose two repairs are translated from the source into Gen/SwitchC15.v on every run - C15_clean_buffers (recvBuf and sendBuf of a returned stream are empty) and C15_no_leak (active = held + pooled in every live session) hold without hypothesis. The remaining clause (no pending data) is refuted (C15_clean_refuted: a response that arrives after PutBack reaches the next holder; known finding, the protocol has no stream generation) and proved under 'the peer sends nothing to a pooled stream' (C15_partial_no_pending). The two repaired defects stay as directed cases 0/1 of every run and as regression Examples about the old-code variants.",
     "level_note": "Trusted: coqc kernel; Get/Put modelled as atomic labels (push/pop run under the pool mutex, flags are monotone atomics); buffers abstracted to per-slice byte counts; correspondence is sampled (directed + random histories, one concurrent stress scenario), timing of the event loop is waited for with generous bounds.",
 }
 
 STATE_NAMES = {0: "opened", 1: "closed", 2: "half-closed"}
 
 
-def scan_fx():
-    """mechanism G for the one switch of the model: does getOrOpenStream close what it discards?"""
-    src = open(os.path.join(core.REPO, "session_manager.go")).read()
-    m = re.search(r"func \(p \*streamPool\) getOrOpenStream\(\).*?\n}\n", src, re.S)
+SWITCH_FILE = os.path.join(core.COQ, "theories", "Gen", "SwitchC15.v")
+
+
+def strip_comments(src):
+    src = re.sub(r"/\*.*?\*/", "", src, flags=re.S)
+    return re.sub(r"//[^\n]*", "", src)
+
+
+def stmts_of(body):
+    return [l.strip() for l in strip_comments(body).splitlines() if l.strip()]
+
+
+def scan_switches():
+    """Translator for the two switches of Model/Pool.v. Returns ((fx, fy), [descriptions], error).
+    Only the exact known shapes are accepted; anything else is an error (a broken correspondence)."""
+    try:
+        sm = open(os.path.join(core.REPO, "session_manager.go")).read()
+        st = open(os.path.join(core.REPO, "stream.go")).read()
+    except OSError as ex:
+        return None, None, "cannot read the source: %s" % ex
+    m = re.search(r"func \(p \*streamPool\) getOrOpenStream\(\) \(\*Stream, error\) \{(.*?)\n}\n", sm, re.S)
     if not m:
-        return None, "cannot find getOrOpenStream in session_manager.go"
-    body = m.group(0)
-    loop = body.split("Session().OpenStream()")[0]
-    if "p.pop()" not in loop:
-        return None, "getOrOpenStream no longer has the pop loop the model mirrors"
-    return (".Close()" in loop or ".close()" in loop), None
+        return None, None, "cannot find getOrOpenStream in session_manager.go"
+    ss = stmts_of(m.group(1))
+    try:
+        i = ss.index("for stream := p.pop(); stream != nil; stream = p.pop() {")
+        j = ss.index("stream, err := p.Session().OpenStream()")
+    except ValueError:
+        return None, None, "getOrOpenStream no longer has the pop loop followed by OpenStream that the model mirrors"
+    loop = ss[i + 1:j]
+    keep = ["if !stream.Session().IsClosed() {", "if stream.IsOpen() {", "return stream, nil", "}", "}"]
+    if loop == keep + ["}"]:
+        fx, d1 = False, "getOrOpenStream drops a popped stream it does not hand out WITHOUT closing it"
+    elif loop == keep + ["stream.Close()", "}"]:
+        fx, d1 = True, "getOrOpenStream closes a popped stream it does not hand out (stream.Close() at the end of the pop loop)"
+    else:
+        return None, None, "the pop loop of getOrOpenStream has a shape the translator does not know: %r" % (loop,)
+    m = re.search(r"func \(s \*Stream\) reset\(\) error \{(.*?)\n}\n", st, re.S)
+    if not m:
+        return None, None, "cannot find Stream.reset in stream.go"
+    body = strip_comments(m.group(1))
+    rs = stmts_of(m.group(1))
+    for need in ("if !s.IsOpen() {", "unreadSize := s.recvBuf.Len()", "if unreadSize > 0 {", "if len(s.pendingData.unread) > 0 {", "s.inFallbackState = false"):
+        if need not in rs:
+            return None, None, "Stream.reset no longer has the checks the model mirrors (missing: %s)" % need
+    mentions = len(re.findall(r"sendBuf", body))
+    guard = re.search(r"if\s+(\w+)\s*:=\s*s\.sendBuf\.Len\(\);\s*\1\s*>\s*0\s*\{\s*return\s+fmt\.Errorf\([^\n]*\)\s*\}", body)
+    if mentions == 0:
+        fy, d2 = False, "Stream.reset() does not look at the send buffer"
+    elif mentions == 1 and guard and body.index("s.sendBuf.Len()") < body.index("s.readDeadline = zeroTime"):
+        fy, d2 = True, "Stream.reset() returns an error when sendBuf.Len() > 0 (before it clears any state)"
+    else:
+        return None, None, "Stream.reset mentions sendBuf in a way the translator does not know (%d mention(s))" % mentions
+    return (fx, fy), [d1, d2], None
+
+
+def write_switches(fx, fy):
+    txt = ("(* GENERATED from /repo's session_manager.go and stream.go by props/C15.py (mechanism G for the switches of Model/Pool.v). Do not edit. *)\n"
+           "(* sw_close_discarded: getOrOpenStream closes a popped stream it does not hand out. *)\n"
+           "(* sw_reset_rejects_unflushed: Stream.reset() fails when the send buffer holds unflushed bytes. *)\n"
+           "Definition sw_close_discarded : bool := %s.\n"
+           "Definition sw_reset_rejects_unflushed : bool := %s.\n" % ("true" if fx else "false", "true" if fy else "false"))
+    with core.Lock("coq"):
+        old = open(SWITCH_FILE).read() if os.path.exists(SWITCH_FILE) else None
+        if old != txt:
+            with open(SWITCH_FILE, "w") as fh:
+                fh.write(txt)
+
+
+def current_switches():
+    try:
+        t = open(SWITCH_FILE).read()
+        return tuple("true" in re.search(r"Definition %s : bool := (\w+)\." % n, t).group(1) for n in ("sw_close_discarded", "sw_reset_rejects_unflushed"))
+    except (OSError, AttributeError):
+        return None
 
 
 def b(x):
@@ -76,13 +140,13 @@ def snap_to_coq(sn):
                core.z(sn["unhealthy"]), core.z(sn["sess"]), core.z(sn["shut"])))
 
 
-def case_to_coq(c, fx):
+def case_to_coq(c, sw):
     steps = []
     for o in c["ops"]:
         steps.append("{| p_op := %s; p_res := %s; p_got := %s; p_snap := %s |}"
                      % (op_to_coq(o), core.z(o["res"] if o["op"] == "get" else -1), core.z(o["s"] if o["op"] == "get" else -1),
                         snap_to_coq(o["snap"])))
-    return "{| p_fx := %s; p_cap := %s; p_steps := %s |}" % (b(fx), core.z(c["cap"]), core.coq_list(steps))
+    return "{| p_fx := %s; p_fy := %s; p_cap := %s; p_steps := %s |}" % (b(sw[0]), b(sw[1]), core.z(c["cap"]), core.coq_list(steps))
 
 
 def eval_cases(cases, fx, tag):
@@ -159,10 +223,18 @@ def check(run):
     data, gerr = gen.regenerate()
     if gerr:
         run.add_corr_break("G: " + gerr)
-    fx, ferr = scan_fx()
+    fx, fdesc, ferr = scan_switches()
     if ferr:
-        run.add_corr_break("G: " + ferr)
-        fx = False
+        # never a silent default: a failing translator is a broken correspondence; the model comparison below then
+        # uses the variant recorded by the last successful translation and says so
+        run.add_corr_break("G: switch translator: " + ferr)
+        fx = current_switches()
+        fdesc = ["TRANSLATION FAILED (%s); variant of the last successful translation used: %s" % (ferr, fx)]
+        if fx is None:
+            fx = (False, False)
+            fdesc.append("no recorded variant: old-code variant used for the comparison only")
+    else:
+        write_switches(*fx)
     run.proof = core.proof_step(PROP, run.tier)
     n = 40 if run.tier == "quick" else 1500
     cases, err = run_harness(n, run.seed, run.tier)
@@ -186,7 +258,7 @@ def check(run):
             o = c["ops"][step] if 0 <= step < len(c["ops"]) else {}
             run.add_corr_break("D: case %s (%s): after op %s (%s) the model and the real pool differ in: %s"
                                % (c["id"], c["kind"], step, o.get("op"), FIELDS.get(field, field)),
-                               dict(brief(c, step), differs_in=FIELDS.get(field, field), model_fx=fx))
+                               dict(brief(c, step), differs_in=FIELDS.get(field, field), model_switches=list(fx)))
     feats = {}
     distinct = set()
     nops = 0
@@ -207,7 +279,8 @@ def check(run):
         "samples": [brief(c) for c in cases if c["kind"].startswith("random")][:2],
         "features": feats, "op_mix": opmix, "total_ops": nops,
         "capacities": sorted({c["cap"] for c in cases}),
-        "model_switch_fx_close_discarded": fx,
+        "model_switches": {"sw_close_discarded": fx[0], "sw_reset_rejects_unflushed": fx[1]},
+        "model_switches_chosen_because": fdesc,
         "oracle_failures_by_signature": {s: sum(1 for f in run.oracle_failures if f["signature"] == s) for s in sorted({f["signature"] for f in run.oracle_failures})},
     })
     run.assumptions += [
